@@ -228,3 +228,4 @@ func verifPar(a, b func()) {
 		}
 	}
 }
+func verifResetLocks() {}
